@@ -140,7 +140,7 @@ def runErrvis (c : Case) : Res :=
 def runCli (c : Case) : Res :=
   let kind := (kv? c.header "kind").getD "?"
   let impl := (c.lines.find? (fun l => l.head? == some "impl")).getD []
-  let prop := if kind == "files" then "C07" else if kind == "symbase" then "C16" else if kind == "spelling" then "C01,C17" else if kind == "options" then "C01,C06,C17" else "C10"
+  let prop := if kind == "files" then "C07" else if kind == "symbase" then "C16" else if kind == "spelling" then "C01,C17" else if kind == "options" then "C01,C06,C17" else if kind == "sumlocal" then "C08,C10" else "C10"
   let tags := [s!"nt={prop}", s!"kind={kind}", s!"sorted={(kv? c.header "sorted").getD "-"}", s!"nfiles={(kv? c.header "nfiles").getD "-"}"]
   match impl[1]? with
   | some "same" => { verdict := "ok", tags := tags }
@@ -151,6 +151,7 @@ def runCli (c : Case) : Res :=
               else if kind == "symbase" then "acb -b SPEC... on the command line and the library run with the parsed opening positions disagree: "
               else if kind == "spelling" then "the same rows with the affiliate names typed in another letter case print another report: "
               else if kind == "options" then "the front end with these options and the library entry point with the same options disagree: "
+              else if kind == "sumlocal" then "the summary of two securities together is not, security by security, the summary of each alone: "
               else "acb --summarize-before D prints something else than the summary for the date D: ") ++
              String.intercalate " " (impl.drop 2) }
   | _ => { verdict := "BADCASE", msg := "unparsable cli case" }
